@@ -1,6 +1,13 @@
 """C09 — variable-length padding / chunking / masked compaction / random shift:
 correspondence between /repo's pad_variable, chunk_by_slices, pad_masked_sequence, RandomShift and
-PV.C09.Model (evaluated by vm_compute), with PV.C09.Spec's boolean checkers as the judge."""
+PV.C09.Model (evaluated by vm_compute), with PV.C09.Spec's boolean checkers as the judge.
+Every case may name robustness variants (field "alts", table ALTS): the same logical call through another entry point
+(functional / module / keywords / defaults omitted / torch.jit.script of the function and of the module), memory layout,
+payload dtype, injective relabelling of the payload by non-finite bit patterns, a second call on the same tensors, one
+storage for two parameters; each must reproduce the canonical outcome and leave the argument tensors untouched.
+audit_cases(): streams for situations a generic draw meets too rarely (evaluation-mode shift, pads > T through every
+entry point of the shared helper, right-dominant wholly-right slices, aliasing / single-row batches, seed-driven
+eager-vs-scripted RandomShift judged by Spec.spec_shift_okb)."""
 import itertools
 import json
 from fractions import Fraction
@@ -983,7 +990,8 @@ def run(chk, cases=None):
                 "variates), mode, fill value, dtype, functional-or-module); the implementation's whole output tensor (all T' "
                 "columns, also after the valid part), the reported lengths and the kind of exception are compared with "
                 "PV.C09.Model evaluated by vm_compute. non-trivial = some pad > 0 / slice bound outside the sequence / mask "
-                "row neither full nor empty / non-zero drawn shift")
+                "row neither full nor empty / non-zero drawn shift. Variants (alts) of a case must give the canonical outcome; "
+                "seed-driven shift cases (real generator, eager and scripted) are judged by Spec.spec_shift_okb")
     chk.assumptions += ["regime E: integer payload and fill value, dyadic prop and uniform variates, so float32/64 arithmetic is exact",
                         "torch.rand_like is patched to return the variates handed to the model (RandomShift)",
                         "trailing dimensions are flattened to one feature axis by the harness (cells); lens <= T and pads >= 0 in every generated case"]
